@@ -274,6 +274,9 @@ theorem accept_interactive_self (w : World) (k : Nat) : (accept w k).interactive
 
 theorem LiveOK_userIO (js : JState) (w : World) (u : Nat) (h : LiveOK js w) : LiveOK js (userIO w u) := by
   unfold userIO
+  split
+  · exact LiveOK_congr js js w _ h (fun _ hu => hu) rfl (fun _ => rfl)
+  unfold userIO0
   dsimp only
   split
   · refine LiveOK_congr js js w _ h (fun _ hu => hu) ?_ ?_
